@@ -816,6 +816,49 @@ def structural_cases(ck: Check, n: int, have_driver: bool):
                f'qutrit circuit: raised {e}', 'FillSingleQuditGatesPass',
                ('U8Gate',), c3)
     out, _ = run('ToVariablePass', P.ToVariablePass(True), ('qutrit',), c3, d3)
+    # ExtractMeasurements / RestoreMeasurements round trip on measured circuits
+    from bqskit.ir.lang.qasm2 import OPENQASM2Language
+    from bqskit.ir.gates import MeasurementPlaceholder
+    for i in range(max(3, n // 6)):
+        w = ck.rng.choice([2, 3, 4])
+        body = L.rand_circuit(ck.rng, w, ck.rng.randrange(1, 6),
+                              oneq=[HGate(), XGate(), SGate()],
+                              twoq=[CNOTGate(), CZGate()])
+        qs = ck.rng.sample(range(w), ck.rng.randrange(1, w + 1))
+        qasm = ('OPENQASM 2.0;\ninclude "qelib1.inc";\n'
+                f'qreg q[{w}];\ncreg c[{w}];\n')
+        names = {'HGate': 'h', 'XGate': 'x', 'SGate': 's', 'CNOTGate': 'cx',
+                 'CZGate': 'cz'}
+        for o in body:
+            qasm += (names[type(o.gate).__name__] + ' '
+                     + ','.join(f'q[{q}]' for q in o.location) + ';\n')
+        for j, q in enumerate(qs):
+            qasm += f'measure q[{q}] -> c[{j}];\n'
+        cm = OPENQASM2Language().decode(qasm)
+        ck.count(('measure', qasm))
+        ck.bump('structural_cases', 'ExtractMeasurements+Restore')
+        try:
+            ex, d = run_pass(P.ExtractMeasurements(), cm)
+            re_, _ = run_pass(P.RestoreMeasurements(), ex, d)
+            gates = lambda cc: [(repr(o.gate), tuple(o.location)) for o in cc
+                                if not isinstance(o.gate,
+                                                  MeasurementPlaceholder)]
+            meas = lambda cc: sorted(
+                (q, b) for o in cc if isinstance(o.gate, MeasurementPlaceholder)
+                for q, b in o.gate.measurements.items())
+            tl = lambda cc: timelines([(g, l, ()) for g, l, p in L.flatten(cc)
+                                       if not isinstance(
+                                           g, MeasurementPlaceholder)], w)
+            ok = (not meas(ex) and tl(ex) == tl(cm) and tl(re_) == tl(cm)
+                  and meas(re_) == meas(cm))
+            if not ok:
+                report('postcondition:ExtractMeasurements', 'measurements '
+                       'are not removed / restored as recorded, or gates '
+                       'changed', 'ExtractMeasurements', (), cm)
+        except Exception as e:
+            report(f'raises:ExtractMeasurements:{type(e).__name__}',
+                   f'measurement round trip raised {e}',
+                   'ExtractMeasurements', (), cm)
     # Lean side of the timeline comparison
     if have_driver and tl_lines:
         for (pname, args, c), o in zip(tl_ctx, ck.driver('accept', tl_lines)):
@@ -1017,7 +1060,7 @@ def num_case(spec):
     kind, seed, big = spec
     rng = random.Random(f'{kind}-{seed}')
     nprng = np.random.RandomState(rng.randrange(2 ** 31))
-    res = {'kind': kind, 'seed': seed, 'viol': []}
+    res = {'kind': kind, 'seed': seed, 'big': big, 'viol': []}
     t0 = time.time()
     data = None
     thr = 1e-8
@@ -1212,8 +1255,9 @@ def numerical_cases(ck: Check, thorough: bool):
             ck.violation(
                 sig,
                 f'{pname}{r.get("args", "")}: {what}',
-                {k: r.get(k) for k in ('kind', 'seed', 'args', 'circuit',
-                                       'dist', 'thr', 'trace', 'maps')},
+                {k: r.get(k) for k in ('kind', 'seed', 'big', 'args',
+                                       'circuit', 'dist', 'thr', 'trace',
+                                       'maps')},
                 found_input=True)
     ck.coverage['slowest_numerical_case_s'] = round(slow, 2)
     ck.sample({k: results[0].get(k) for k in ('kind', 'seed', 'args',
@@ -1442,7 +1486,36 @@ def runtime_sample(ck: Check, thorough: bool):
 
 
 # ==========================================================================
-def run(ck: Check):
+def replay(ck: Check):
+    """./check C10 --replay replays/C10/<h>.json: numerical cases are re-run
+    from their (kind, seed); every other case is regenerated by re-running the
+    seeded workload of the recorded seed and tier (no Lean build, no real
+    runtime) and looking for the recorded signature."""
+    import json
+    import random
+    body = json.loads(open(ck.replay_path).read())
+    rp, sig = body.get('replay', {}), body.get('signature', '')
+    print(f'replaying {sig}: {body.get("what", "")[:200]}')
+    if isinstance(rp, dict) and rp.get('kind') in NUM_QUICK and 'seed' in rp:
+        L.install_inproc_runtime()
+        r = num_case((rp['kind'], rp['seed'], bool(rp.get('big'))))
+        print('  result:', {k: r.get(k) for k in ('args', 'dist', 'thr',
+                                                  'ops', 'viol')})
+        for s_, what in r['viol']:
+            ck.violation(sig, what, rp, found_input=True)
+        return
+    ck.seed = int(body.get('seed', 0))
+    ck.tier = body.get('tier', 'quick')
+    ck.rng = random.Random(ck.seed * 1000003 + 10)
+    run(ck, replaying=True)
+    hit = [v for v in ck.violations if v['signature'] == sig] or [
+        k for k in ck.known_hits if __import__('re').fullmatch(k, sig)]
+    print('  reproduced' if hit else '  NOT reproduced')
+
+
+def run(ck: Check, replaying: bool = False):
+    if ck.replay_path and not replaying:
+        return replay(ck)
     thorough = ck.tier == 'thorough'
     mult = 10 if thorough else 1
     L.install_inproc_runtime()
@@ -1469,7 +1542,7 @@ def run(ck: Check):
                      {'trace': traceback.format_exc()[-1500:]},
                      found_input=False)
     mark('translate')
-    proved = ck.lean_obligations()
+    proved = True if replaying else ck.lean_obligations()
     mark('lean_obligations')
     have_driver = True
     try:
@@ -1505,7 +1578,8 @@ def run(ck: Check):
     mark('analytic')
     numerical_cases(ck, thorough)
     mark('numerical')
-    runtime_sample(ck, thorough)
+    if not replaying:
+        runtime_sample(ck, thorough)
     mark('runtime_sample')
     ck.assumptions += [
         'numerical optimisers (Circuit.instantiate, ceres/qfactor/LBFGS) '
